@@ -72,59 +72,81 @@ Proof.
 Qed.
 Print Assumptions C22_auth.
 
-(* ---- which key a signer id is checked against (Memoer.verify modelled as
-   MemoGram.mverify over the crypto proper [sigverify key sig ser]) ----
-   A non-transferable id (code 'B') is its own verkey.  A transferable ('D') or
+(* ---- Memoer.verify modelled as MemoGram.mverify over libsodium proper
+   [rawverify rawkey rawsig ser]: canonical decoding and key choice ----
+   The text -> raw decoders (_decodeVID/_decodeQVK: decode_key, _decodeSGN:
+   decode_sgn) are total and accept canonical text only: right length, Base64
+   characters, zero midpad bits, so the text is determined by the raw value. *)
+Theorem C22_decode_canonical_only : forall t raw, decode_sgn t = Some raw -> encode_sgn raw = t.
+Proof. exact decode_sgn_canonical. Qed.
+Print Assumptions C22_decode_canonical_only.
+
+Theorem C22_decode_key_canonical_only : forall t c raw, decode_key t = Some (c, raw) -> encode_key c raw = t.
+Proof. exact decode_key_canonical. Qed.
+Print Assumptions C22_decode_key_canonical_only.
+
+(* A non-transferable id (code 'B') is its own verkey.  A transferable ('D') or
    digest ('E') id is only a label: its current verkey is the qvk in the
-   receiver's .keep, and without a keep entry nothing verifies for it. *)
-Theorem C22_verify_key : forall sigverify keep vid sg ser,
-  mverify sigverify keep vid sg ser = Ok tt ->
-  exists key, key_of keep vid = Some key /\ sigverify key sg ser = Ok tt.
+   receiver's .keep, and without a keep entry nothing verifies for it.
+   Acceptance fixes the signature text: it is the canonical encoding of the raw
+   signature that libsodium accepted. *)
+Theorem C22_verify_key : forall rawverify keep vid sg ser,
+  mverify rawverify keep vid sg ser = Ok tt ->
+  exists key rs, key_raw keep vid = Some key /\ decode_sgn sg = Some rs /\ encode_sgn rs = sg /\
+                 rawverify key rs ser = Ok tt.
 Proof. exact mverify_ok. Qed.
 Print Assumptions C22_verify_key.
 
-Theorem C22_transferable_needs_keep : forall sigverify keep vid sg ser,
-  hd 0%N vid <> 66%N -> keep vid = None -> mverify sigverify keep vid sg ser <> Ok tt.
+Theorem C22_transferable_needs_keep : forall rawverify keep vid sg ser,
+  hd 0%N vid <> 66%N -> keep vid = None -> mverify rawverify keep vid sg ser <> Ok tt.
 Proof. exact no_keep_no_verify. Qed.
 Print Assumptions C22_transferable_needs_keep.
 
 (* Non-vacuity: with a crypto that accepts everything, a 'D' id verifies exactly
-   when keep has an entry for it, a 'B' id always. *)
+   when keep has an entry for it, a 'B' id always; a signature text with
+   non-zero pad bits (third character 'E' instead of 'A') or a key text with
+   non-zero pad bits (second character 'Q') is rejected although it decodes
+   to the same raw bytes under a lenient decoder. *)
 Example C22_keep_example :
   let anyok := fun (_ _ _ : bytes) => Ok tt in
   let dvid := 68%N :: repeat 65%N 43 in let bvid := 66%N :: repeat 65%N 43 in
-  mverify anyok (fun _ => None) dvid [1%N] [2%N] = Exc MemoErr /\
-  mverify anyok (fun v => if bytes_eqb v dvid then Some bvid else None) dvid [1%N] [2%N] = Ok tt /\
-  mverify anyok (fun _ => None) bvid [1%N] [2%N] = Ok tt.
+  let sg := 48%N :: 66%N :: repeat 65%N 86 in
+  mverify anyok (fun _ => None) dvid sg [2%N] = Exc MemoErr /\
+  mverify anyok (fun v => if bytes_eqb v dvid then Some bvid else None) dvid sg [2%N] = Ok tt /\
+  mverify anyok (fun _ => None) bvid sg [2%N] = Ok tt /\
+  mverify anyok (fun _ => None) bvid (48%N :: 66%N :: 69%N :: repeat 65%N 85) [2%N] = Exc MemoErr /\
+  mverify anyok (fun _ => None) (66%N :: 81%N :: repeat 65%N 42) sg [2%N] = Exc MemoErr /\
+  decode_sgn sg = Some (repeat 0%N 64).
 Proof. vm_compute. repeat split. Qed.
 
 (* Hence, with authic, for ANY crypto and ANY keep: every delivered memo names a
-   signer id v for which this receiver has a key (v itself if 'B', else keep's
-   qvk: in particular v IS in keep), and every body of it arrived in a signed
-   part that the crypto accepted under exactly that key.  No premise is left:
-   the empty id never verifies by construction of mverify. *)
-Theorem C22_auth_keep : forall sigverify keep ops text src ov,
-  let s := fst (run (mverify sigverify keep) true init ops) in
+   signer id v for which this receiver has a raw key (decoded from v itself if
+   'B', else from keep's qvk: in particular v IS in keep), and every body of it
+   arrived in a signed part whose canonically encoded signature libsodium
+   accepted under exactly that key.  No premise is left. *)
+Theorem C22_auth_keep : forall rawverify keep ops text src ov,
+  let s := fst (run (mverify rawverify keep) true init ops) in
   In (text, src, ov) (rxms s ++ inbox s) ->
-  exists v key bodies, ov = Some v /\ key_of keep v = Some key /\ text = concat bodies /\
-    Forall (fun b => exists d ser sg head raw, In d (dgrams ops) /\
-              sigverify key sg ser = Ok tt /\ ser = head ++ b /\ d = ser ++ raw /\ (sg = raw \/ sg = enc raw)) bodies.
+  exists v key bodies, ov = Some v /\ key_raw keep v = Some key /\ text = concat bodies /\
+    Forall (fun b => exists d ser sg rs head raw, In d (dgrams ops) /\
+              decode_sgn sg = Some rs /\ encode_sgn rs = sg /\ rawverify key rs ser = Ok tt /\
+              ser = head ++ b /\ d = ser ++ raw /\ (sg = raw \/ sg = enc raw)) bodies.
 Proof.
-  intros sigverify keep ops text src ov s Hin.
-  pose proof (run_inv (mverify sigverify keep) (mverify_no_vid sigverify keep) (dgrams ops) ops init
+  intros rawverify keep ops text src ov s Hin.
+  pose proof (run_inv (mverify rawverify keep) (mverify_no_vid rawverify keep) (dgrams ops) ops init
                       (incl_refl _) (inv_init _ _)) as (_ & _ & Im & Ii).
   fold s in Im, Ii.
-  assert (A : authentic (mverify sigverify keep) (dgrams ops) (text, src, ov)).
+  assert (A : authentic (mverify rawverify keep) (dgrams ops) (text, src, ov)).
   { apply in_app_or in Hin. destruct Hin as [Hin|Hin].
     - eapply Forall_forall in Im; eauto.
     - eapply Forall_forall in Ii; eauto. }
   destruct A as (v & bodies & A1 & _ & A3 & A4 & (b0 & d0 & _ & (ser0 & sg0 & head0 & raw0 & V0 & _))).
   cbn [fst snd] in A1, A3.
-  destruct (mverify_ok _ _ _ _ _ V0) as (key & K & _).
+  destruct (mverify_ok _ _ _ _ _ V0) as (key & rs0 & K & _).
   exists v, key, bodies. split; [exact A1|]. split; [exact K|]. split; [exact A3|].
   eapply Forall_impl; [|exact A4]. cbn. intros b (d' & Hd' & ser' & sg' & head' & raw' & V' & A & B & C).
-  destruct (mverify_ok _ _ _ _ _ V') as (key' & K' & S'). rewrite K in K'. inversion K'; subst key'.
-  exists d', ser', sg', head', raw'. auto.
+  destruct (mverify_ok _ _ _ _ _ V') as (key' & rs' & K' & D' & E' & S'). rewrite K in K'. inversion K'; subst key'.
+  exists d', ser', sg', rs', head', raw'. repeat split; auto.
 Qed.
 Print Assumptions C22_auth_keep.
 
